@@ -4,6 +4,7 @@ import (
 	"bytes"
 	"encoding/json"
 	"fmt"
+	"math"
 	"math/rand"
 	"os"
 	"regexp"
@@ -600,6 +601,42 @@ func Grid(ctx *core.Ctx, real *Real, e *Export) {
 	ctx.Extra["grid_chains"] = len(chains)
 	ctx.Sample(map[string]interface{}{"family": "GRID", "chain": "|insertWordBreaks:3", "input": "a<bcdefg"})
 	nodeDecode(ctx, forNode)
+	nonFiniteJSON(ctx, real)
+}
+
+// nonFiniteJSON: JSON has no NaN / Infinity.  For a value that holds one,
+// |json may fail the render or write some well-formed JSON text (JavaScript
+// writes null); what it may not do is succeed with text that is not JSON.
+func nonFiniteJSON(ctx *core.Ctx, real *Real) {
+	cases := []struct {
+		name string
+		x    data.Value
+	}{
+		{"NaN", data.Float(math.NaN())}, {"+Inf", data.Float(math.Inf(1))}, {"-Inf", data.Float(math.Inf(-1))},
+		{"[1, NaN]", data.List{data.Int(1), data.Float(math.NaN())}}, {"{k: -Inf}", data.Map{"k": data.Float(math.Inf(-1))}},
+	}
+	for _, c := range cases {
+		for _, chain := range []string{"|json", "|noAutoescape|json", "|json|escapeHtml"} {
+			out, err := real.RenderOff(chain, c.x)
+			ctx.AddEvals(1)
+			ctx.Distinct("go|nonfinite|" + chain + "|" + c.name)
+			if err != nil {
+				continue
+			}
+			txt := out
+			if strings.HasSuffix(chain, "|escapeHtml") {
+				txt, _ = HTMLDecode(out)
+			}
+			var v interface{}
+			if json.Unmarshal([]byte(txt), &v) != nil {
+				sig := core.Sig{Family: "go", Feature: "directive=json,malformed,nonfinite-input"}
+				if reporter.First(sig) {
+					ctx.Violation(sig, fmt.Sprintf("{$x%s} with x = %s renders %s without an error: not JSON text", chain, c.name, strconv.Quote(out)),
+						map[string]interface{}{"kind": "c16-nonfinite", "template": OffTemplate(chain), "x": c.name, "observed": out})
+				}
+			}
+		}
+	}
 }
 
 // nodeDecode has node evaluate the Go outputs of escapeJsString (as string
